@@ -53,6 +53,9 @@ CASE_WATCHDOG_S = 600
 # result object handed to / returned by check functions
 
 
+NUMBA_TRANSIENT = ("can't unbox array from PyObject into native value",)
+
+
 class R:
     """Outcome of one case: findings, class labels, non-triviality, signature."""
 
@@ -670,7 +673,16 @@ def parent_main(args):
         with open(path, "w") as fh:
             json.dump({"property": prop, "key": key, "findings": f["findings"], "case": f["case"]},
                       fh, indent=1, sort_keys=True)
-        violations.append((key, path, f["findings"][0]["msg"]))
+        msg0 = f["findings"][0]["msg"]
+        if any(pat in m["msg"] for m in f["findings"] for pat in NUMBA_TRANSIENT):
+            # an internal numba dispatch error seen once when 16 shards compiled and cached the same kernels at the same time:
+            # such a finding counts only if its replay reproduces it in a fresh process
+            rp = subprocess.run([sys.executable, me, "--prop", prop, "--replay", path], env=env, capture_output=True, text=True)
+            if rp.returncode == 0:
+                print("note: finding %s did not reproduce in a fresh process (numba dispatch transient); dropped" % key)
+                os.remove(path)
+                continue
+        violations.append((key, path, msg0))
 
     # 3. report
     for e in known:
